@@ -91,6 +91,7 @@ fn build_calls(case: &DiCase, allow_big: bool) -> (Cfg, Vec<Call>) {
     match case.variant % 16 {
         3 if allow_big => return build_big(case),
         7 if allow_big => return build_dense(case),
+        11 if allow_big => return build_wide(case),
         _ => {}
     }
     let n = gen::pick_n(case.n_sel);
@@ -191,6 +192,40 @@ fn build_big(case: &DiCase) -> (Cfg, Vec<Call>) {
     for (i, (_, d)) in case.verts.iter().enumerate() {
         if d % 3 == 0 {
             push_valid(&mut r, &mut calls, Call::Put(id((i * 9) % total), data_bytes(u16::from(*d) << 8, i as u16)));
+        }
+    }
+    (cfg, calls)
+}
+
+/// 6..=10 vertices (one group), N = 16, every vertex with 9..=16 labels drawn from a list
+/// that contains families of labels equal under lossy keys (code points modulo 128 or 256).
+fn build_wide(case: &DiCase) -> (Cfg, Vec<Call>) {
+    let total = 6 + (case.pred as usize % 5);
+    let cfg = Cfg { n: 16, cap: 12 + (case.cap_sel as usize % 2) * 244 };
+    let mut r = Runner::new(cfg);
+    let mut calls = vec![];
+    let mut labels: Vec<Lab> = ["esta", "está", "ano", "año", "ах", "0E", "abcdefgh", "Foo", "FOO", "k1", "k2"].iter().map(|s| Lab::Str((*s).to_string())).collect();
+    labels.extend((0..8).map(Lab::Alpha));
+    labels.extend([Lab::Greek('a'), Lab::Greek('á'), Lab::Greek('ρ')]);
+    for i in 0..total {
+        push_valid(&mut r, &mut calls, Call::Add(i));
+    }
+    for i in 1..total {
+        push_valid(&mut r, &mut calls, Call::Bind { a: i - 1, b: i, l: Lab::Alpha(0), parsed: false });
+    }
+    for i in 0..total {
+        let want = 9 + (case.edges.get(i).map_or(0, |e| e.0 as usize) % 8);
+        let start = case.edges.get(i).map_or(0, |e| e.1 as usize) % labels.len();
+        for k in 0..want {
+            let l = labels[(start + k * 5) % labels.len()].clone();
+            let t = (i + 1 + case.edges.get((i + k) % case.edges.len().max(1)).map_or(0, |e| e.2 as usize)) % total;
+            let t = if t == i { (i + 1) % total } else { t };
+            push_valid(&mut r, &mut calls, Call::Bind { a: i, b: t, l, parsed: false });
+        }
+    }
+    for (i, (_, d)) in case.verts.iter().enumerate().take(total) {
+        if d % 2 == 0 {
+            push_valid(&mut r, &mut calls, Call::Put(i, data_bytes(u16::from(*d) << 8, i as u16)));
         }
     }
     (cfg, calls)
@@ -850,6 +885,9 @@ impl Engine for DiEngine {
         if alive.len() >= 65 {
             events.push("graph.big_65plus_vertices");
         }
+        if alive.len() <= 10 && alive.iter().filter(|v| m.get(**v).edges.len() >= 9).count() >= 4 {
+            events.push("graph.wide_vertices_with_label_families");
+        }
         if alive.len() >= 18 && alive.iter().filter(|v| m.get(**v).edges.len() == 16).count() >= 17 {
             events.push("graph.dense_17plus_full_vertices");
         }
@@ -931,4 +969,107 @@ impl Engine for DiEngine {
 #[allow(dead_code)]
 fn unused(g: &dyn G) -> usize {
     g.len()
+}
+
+// ------------------------------------------------------------------ datum-length sweep
+
+/// Bounded-exhaustive complement of C18 and C08: EVERY datum length 0..=max on a small
+/// graph (exports parsed back / image reloaded), sharded over the workers.
+pub struct LengthSweep {
+    pub prop: &'static str,
+    pub shard: u64,
+    pub of: u64,
+    pub max: usize,
+}
+
+impl LengthSweep {
+    fn one(&self, len: usize) -> Option<Failure> {
+        let cfg = Cfg { n: 2, cap: 4 };
+        let bytes: Vec<u8> = (0..len).map(|i| (i as u8).wrapping_mul(13).wrapping_add((i >> 8) as u8) ^ 0x5A).collect();
+        let calls = vec![
+            Call::Add(0),
+            Call::Add(1),
+            Call::Bind { a: 0, b: 1, l: Lab::Alpha(0), parsed: false },
+            Call::Put(1, bytes.clone()),
+            Call::Put(0, vec![7]),
+        ];
+        let r = replay_calls(cfg, &calls)?;
+        let fail = |kind: &str, d: String| Some(Failure { prop: self.prop.into(), kind: kind.into(), step: len, detail: format!("datum of {len} bytes: {d}") });
+        if self.prop == "C18" {
+            return check_exports(&r, 0, &mut Stats::default()).map(|mut f| {
+                f.step = len;
+                f.detail = format!("datum of {len} bytes: {}", f.detail.chars().take(600).collect::<String>());
+                f
+            });
+        }
+        // C08: reload and compare the complete observation and the datum itself
+        let p = crate::interp::tmp_file("len");
+        let res = catch_unwind(AssertUnwindSafe(|| r.g.save(&p).and_then(|_| r.g.load_same(&p))));
+        let _ = std::fs::remove_file(&p);
+        match res {
+            Err(e) => fail("twin.panic", format!("save/load panicked: {}", panic_text(e))),
+            Ok(Err(e)) => fail("twin.error", format!("save/load failed: {e:#}")),
+            Ok(Ok(mut g2)) => {
+                match (try_observe(&*r.g, ObsLevel::FULL), try_observe(&*g2, ObsLevel::FULL)) {
+                    (Ok(a), Ok(b)) => {
+                        if let Some(d) = diff(&a, &b) {
+                            return fail("twin.query_differs", d.chars().take(400).collect());
+                        }
+                    }
+                    _ => return fail("twin.panic", "observing panicked".into()),
+                }
+                match catch_unwind(AssertUnwindSafe(|| g2.data(1).map(|h| h.to_vec()))) {
+                    Ok(Some(d)) if d == bytes => None,
+                    other => fail("twin.result_differs", format!("data(1) after the reload = {:?}…", other.map(|o| o.map(|v| v.len())))),
+                }
+            }
+        }
+    }
+}
+
+impl Engine for LengthSweep {
+    type Case = u8;
+    fn name(&self) -> &'static str {
+        "datum-length-sweep"
+    }
+    fn strategy(&self, _: Tier) -> BoxedStrategy<u8> {
+        Just(0u8).boxed()
+    }
+    fn run(&self, _: &u8) -> CaseReport {
+        let mut lens: Vec<usize> = (0..=self.max).collect();
+        for c in [65_536usize, 131_072, 262_144, 1 << 20] {
+            lens.extend(c - 24..=c + 24);
+        }
+        let mut evals = 0u64;
+        let mut subs = vec![];
+        let mut failure = None;
+        for (i, len) in lens.iter().enumerate() {
+            if i as u64 % self.of != self.shard {
+                continue;
+            }
+            if i % 64 == 0 {
+                crate::campaign::touch();
+            }
+            evals += 1;
+            if let Some(f) = self.one(*len) {
+                failure = Some(f);
+                break;
+            }
+            subs.push(*len as u64 ^ 0x1E46_0000_0000);
+        }
+        CaseReport {
+            payload: failure.as_ref().map(|f| json!({"datum_length": f.step})),
+            failure,
+            evaluations: evals,
+            sub_hashes: subs,
+            events: vec!["bounded-exhaustive: every datum length up to the bound, and +-24 around 64 KiB, 128 KiB, 256 KiB, 1 MiB"],
+            ..Default::default()
+        }
+    }
+    fn render(&self, _: &u8) -> Value {
+        json!({"graph": "add 0; add 1; bind 0 1 α0; put 1 <L bytes>; put 0 07", "lengths": format!("0..={} and ±24 around 65536, 131072, 262144, 1048576 (this worker: every {}th)", self.max, self.of)})
+    }
+    fn replay(&self, payload: &Value) -> Option<Failure> {
+        self.one(payload["datum_length"].as_u64()? as usize)
+    }
 }
